@@ -286,3 +286,207 @@ Example C15_example_trimmed_cell :
   surface_trim_tessellate Rops 1000%R 0%R (1 / 2)%R [big_trim] unit_store [0; 1; 2; 3] 4 0 =
   (cls_fold Rops (1 / 2)%R [big_trim] [0; 1; 2; 3] unit_store, [], []).
 Proof. exact trimmed_cell_example. Qed.
+
+
+From Coq Require Import Sorted.
+From NV Require Import Proofs.TrimMesh.
+
+
+(* ====================== round 3 (Proofs/TrimMesh.v): trimmed tessellation, the WHOLE mesh of make_trim_mesh
+   (= make_triangle_mesh with tessellate_func = surface_trim_tessellate, then fix_numbering) ====================== *)
+
+(* [G] structure, all sizes / spacings / trims (no geometric hypothesis): every returned triangle references returned
+   vertices only (vertex id = position in the returned list, so ids are 0..V-1); every returned vertex is used by a returned
+   triangle (the model, like the code, drops unused vertices); a returned vertex is a grid vertex with its point index and
+   grid parameters or has no point attached (created on a cell edge); triangle ids are those of the per-cell outputs *)
+Theorem C15_trim_mesh_structure : forall (rtol tol tols : R) trims npts su sv k vs ts,
+  make_trim_mesh Rops rtol tol tols trims npts su sv k = Ok (vs, ts) ->
+  let a := varr_size su k in let b := varr_size sv k in
+  Forall (fun t => tri_lt (length vs) (snd t)) ts /\
+  (forall n, n < length vs -> exists t, In t ts /\ In n (tri_ids (snd t))) /\
+  (forall n d, n < length vs ->
+     (exists g, g < a * b /\ nth n vs d = (Some (grid_point_index sv k b g), vertex_uv Rops su sv k (g / b, g mod b))) \/
+     fst (nth n vs d) = None) /\
+  map fst ts = map fst (trim_raw_tris Rops rtol tol tols trims su sv k) /\
+  length ts = length (trim_raw_tris Rops rtol tol tols trims su sv k).
+Proof. exact (trim_mesh_structure Rops). Qed.
+Print Assumptions C15_trim_mesh_structure.
+
+(* [G] renumbering: the returned vertices are the images of the duplicate-free object list selected by fix_numbering; the
+   object at position n gets the new id n (consecutive ids 0..V-1); selected = occurs in a triangle of some cell *)
+Theorem C15_trim_mesh_vertex_ids_consecutive : forall (rtol tol tols : R) trims npts su sv k vs ts,
+  make_trim_mesh Rops rtol tol tols trims npts su sv k = Ok (vs, ts) ->
+  let final := trim_final Rops rtol tol tols trims su sv k in
+  vs = map (vertex_of Rops (trim_store Rops rtol tol tols trims su sv k)) final /\ NoDup final /\
+  (forall n, n < length vs -> trim_num Rops rtol tol tols trims su sv k (nth n final 0) = n) /\
+  (forall o, In o final <-> exists t, In t (trim_raw_tris Rops rtol tol tols trims su sv k) /\ In o (tri_ids (snd t))).
+Proof. exact (trim_mesh_vertex_ids Rops). Qed.
+Print Assumptions C15_trim_mesh_vertex_ids_consecutive.
+
+(* [G] order: the returned vertices are in increasing object order: the used grid vertices first, in row-major order of the
+   vertex array (object g = j + i * b), then the used created vertices in the order of their creation *)
+Theorem C15_trim_mesh_vertex_order : forall (rtol tol tols : R) trims npts su sv k vs ts,
+  make_trim_mesh Rops rtol tol tols trims npts su sv k = Ok (vs, ts) ->
+  let final := trim_final Rops rtol tol tols trims su sv k in
+  StronglySorted lt final /\ forall n1 n2, n1 < n2 -> n2 < length vs -> nth n1 final 0 < nth n2 final 0.
+Proof. exact (trim_mesh_vertex_order Rops). Qed.
+Print Assumptions C15_trim_mesh_vertex_order.
+
+(* [G] decomposition: the returned triangle list is, cell by cell in the loop's order (trim_trace = the calls of
+   surface_trim_tessellate with the store and counters they see), the concatenation of the per-cell outputs with vertex
+   objects replaced by their new numbers; membership both ways; every call is for a cell of the vertex array and sees the
+   grid objects with id, point index, grid parameters and classification-only flags (grid_object_ok); each vertex of each
+   per-cell triangle is returned at the parametric position it had in the store the call returned (so the per-cell
+   theorems C15_trim_within_one_cell ... apply to every triangle of the result); the renumbering is injective *)
+Theorem C15_trim_mesh_decomposition : forall (rtol tol tols : R) trims npts su sv k vs ts,
+  make_trim_mesh Rops rtol tol tols trims npts su sv k = Ok (vs, ts) ->
+  let tsl := surface_trim_tessellate Rops rtol tol tols trims in
+  let trace := trim_trace Rops rtol tol tols trims su sv k in
+  let a := varr_size su k in let b := varr_size sv k in
+  let num := trim_num Rops rtol tol tols trims su sv k in
+  let ren := fun t : nat * tri => let '(i, (x, y, z)) := t in (i, (num x, num y, num z)) in
+  ts = flat_map (fun c => map ren (call_ts tsl b c)) trace /\
+  map call_cell trace = cells a b /\
+  (forall t', In t' ts <-> exists c t, In c trace /\ In t (call_ts tsl b c) /\ t' = ren t) /\
+  (forall c, In c trace ->
+     cell_in a b (call_cell c) /\
+     (forall g, g < a * b -> grid_object_ok Rops tols trims su sv k (call_store c) g) /\
+     forall i x y z, In (i, (x, y, z)) (call_ts tsl b c) ->
+       let ok := fun o => o < length (call_out_store tsl b c) /\ num o < length vs /\
+                          forall d, snd (nth (num o) vs d) =
+                                    (vu (vget Rops (call_out_store tsl b c) o), vv (vget Rops (call_out_store tsl b c) o)) in
+       ok x /\ ok y /\ ok z) /\
+  (forall c c' t t' o o', In c trace -> In c' trace -> In t (call_ts tsl b c) -> In t' (call_ts tsl b c') ->
+     In o (tri_ids (snd t)) -> In o' (tri_ids (snd t')) -> num o = num o' -> o = o').
+Proof. exact (trim_mesh_decomposition Rops). Qed.
+Print Assumptions C15_trim_mesh_decomposition.
+
+(* [G] the loop itself (any callback): the fold of mesh_step over the cells is the run of its calls; vertex list, triangle
+   list and both counters are the concatenations / sums of the calls' outputs *)
+Theorem C15_mesh_loop_is_concatenation_of_calls :
+  forall (St : Type) (tsl : St -> list nat -> nat -> nat -> St * list nat * list (nat * tri)) b cs s vl ts vi ti,
+  let tr := mesh_trace tsl b cs (s, vl, ts, vi, ti) in
+  exists s', chain tsl b s vi ti tr s' /\ map call_cell tr = cs /\
+    fold_left (mesh_step tsl b) cs (s, vl, ts, vi, ti) =
+    (s', vl ++ flat_map (call_vs tsl b) tr, ts ++ flat_map (call_ts tsl b) tr,
+     vi + length (flat_map (call_vs tsl b) tr), ti + length (flat_map (call_ts tsl b) tr)).
+Proof. intros St tsl. exact (mesh_fold_trace tsl). Qed.
+Print Assumptions C15_mesh_loop_is_concatenation_of_calls.
+
+(* [G] 'within one cell', ANY trims, 0 <= tol: every returned triangle comes from one cell (i,j) of the vertex array, its
+   three vertices lie in that cell enlarged by tol * side + tol (near_rect; tol = the code's intersection / snap tolerance),
+   and its centre of mass is a point that the exact decision pt_trimmed keeps (gu size k n = the accumulated grid parameter,
+   = n*k/(size-1) by C15_vertex_uv_is_grid_parameter) *)
+Theorem C15_trim_mesh_triangles_within_their_cell : forall (rtol tol tols : R) trims npts su sv k vs ts,
+  (0 <= tol)%R -> make_trim_mesh Rops rtol tol tols trims npts su sv k = Ok (vs, ts) ->
+  let a := varr_size su k in let b := varr_size sv k in
+  forall id x y z, In (id, (x, y, z)) ts ->
+  exists i j, i < a - 1 /\ j < b - 1 /\
+    let u0 := gu su k i in let u1 := gu su k (i + 1) in let v0 := gu sv k j in let v1 := gu sv k (j + 1) in
+    (u0 < u1)%R /\ (v0 < v1)%R /\ (x < length vs /\ y < length vs /\ z < length vs) /\
+    forall d, let P := fun n => snd (nth n vs d) in
+      near_rect tol u0 u1 v0 v1 (P x) /\ near_rect tol u0 u1 v0 v1 (P y) /\ near_rect tol u0 u1 v0 v1 (P z) /\
+      pt_trimmed trims ((fst (P x) + fst (P y) + fst (P z)) / 3)%R ((snd (P x) + snd (P y) + snd (P z)) / 3)%R = false.
+Proof. exact trim_mesh_triangles_local. Qed.
+Print Assumptions C15_trim_mesh_triangles_within_their_cell.
+
+(* [G] metric form: every point (convex combination of the vertices) of every kept triangle is, in u and in v, within one
+   cell size (1 + 2 tol) * side + 2 tol of a point of the exact untrimmed region (the triangle's centre) *)
+Theorem C15_trim_mesh_kept_points_within_one_cell_of_untrimmed : forall (rtol tol tols : R) trims npts su sv k vs ts,
+  (0 <= tol)%R -> make_trim_mesh Rops rtol tol tols trims npts su sv k = Ok (vs, ts) ->
+  let a := varr_size su k in let b := varr_size sv k in
+  forall id x y z d, In (id, (x, y, z)) ts ->
+  let P := fun n => snd (nth n vs d) in
+  exists i j cu cv, i < a - 1 /\ j < b - 1 /\ pt_trimmed trims cu cv = false /\
+    forall al be ga : R, (0 <= al)%R -> (0 <= be)%R -> (0 <= ga)%R -> (al + be + ga = 1)%R ->
+      let pu := (al * fst (P x) + be * fst (P y) + ga * fst (P z))%R in
+      let pv := (al * snd (P x) + be * snd (P y) + ga * snd (P z))%R in
+      (Rabs (pu - cu) <= (1 + 2 * tol) * (gu su k (i + 1) - gu su k i) + 2 * tol)%R /\
+      (Rabs (pv - cv) <= (1 + 2 * tol) * (gu sv k (j + 1) - gu sv k j) + 2 * tol)%R.
+Proof. exact trim_mesh_triangle_points. Qed.
+Print Assumptions C15_trim_mesh_kept_points_within_one_cell_of_untrimmed.
+
+(* [G] untouched cells are exact, in the mesh: closed trims, 0 <= tols, the n-th call of the loop (trace = tr1 ++ c :: tr2)
+   is for a cell whose tols-neighbourhood no trim segment meets  =>  the exact decision is the same at all points of the
+   cell; the call returns nothing if it is `trimmed`, else exactly the two plain triangles numbered ti, ti+1 with
+   ti = number of triangles emitted before; in the result they sit between the contributions of the earlier and the later
+   cells, on the four grid vertices of the cell (point indices, exact grid parameters).  With C15_cell_partition: a cell
+   inside the untrimmed region that the trim boundary does not touch is covered by exactly its two plain triangles;
+   with C15_trim_mesh_triangles_within_their_cell: triangles of other cells stay in their own (enlarged) cells *)
+Theorem C15_trim_mesh_untouched_cell_exact : forall (rtol tol tols : R) trims npts su sv k vs ts,
+  (0 <= tols)%R -> trims_closed trims -> make_trim_mesh Rops rtol tol tols trims npts su sv k = Ok (vs, ts) ->
+  let tsl := surface_trim_tessellate Rops rtol tol tols trims in
+  let a := varr_size su k in let b := varr_size sv k in
+  forall tr1 c tr2, trim_trace Rops rtol tol tols trims su sv k = tr1 ++ c :: tr2 ->
+  let i := fst (call_cell c) in let j := snd (call_cell c) in
+  let u0 := gu su k i in let u1 := gu su k (i + 1) in let v0 := gu sv k j in let v1 := gu sv k (j + 1) in
+  trims_miss_rect trims (u0 - tols) (u1 + tols) (v0 - tols) (v1 + tols) ->
+  let c1 := j + i * b in let c2 := j + (i + 1) * b in let c3 := j + 1 + (i + 1) * b in let c4 := j + 1 + i * b in
+  let ti := call_ti c in
+  let num := trim_num Rops rtol tol tols trims su sv k in
+  let ren := fun t : nat * tri => let '(n, (x, y, z)) := t in (n, (num x, num y, num z)) in
+  i < a - 1 /\ j < b - 1 /\ (u0 < u1)%R /\ (v0 < v1)%R /\
+  (forall x y, (u0 - tols <= x <= u1 + tols)%R -> (v0 - tols <= y <= v1 + tols)%R ->
+     pt_trimmed trims x y = pt_trimmed trims u0 v0) /\
+  ti = length (flat_map (call_ts tsl b) tr1) /\
+  call_ts tsl b c = (if pt_trimmed trims u0 v0 then [] else [(ti, (c1, c2, c3)); (S ti, (c1, c3, c4))]) /\
+  ts = flat_map (fun c => map ren (call_ts tsl b c)) tr1 ++
+       (if pt_trimmed trims u0 v0 then [] else [(ti, (num c1, num c2, num c3)); (S ti, (num c1, num c3, num c4))]) ++
+       flat_map (fun c => map ren (call_ts tsl b c)) tr2 /\
+  (pt_trimmed trims u0 v0 = false -> forall d,
+     nth (num c1) vs d = (Some (grid_point_index sv k b c1), (u0, v0)) /\
+     nth (num c2) vs d = (Some (grid_point_index sv k b c2), (u1, v0)) /\
+     nth (num c3) vs d = (Some (grid_point_index sv k b c3), (u1, v1)) /\
+     nth (num c4) vs d = (Some (grid_point_index sv k b c4), (u0, v1)) /\
+     (num c1 < length vs /\ num c2 < length vs /\ num c3 < length vs /\ num c4 < length vs)).
+Proof. exact trim_mesh_untouched_cell. Qed.
+Print Assumptions C15_trim_mesh_untouched_cell_exact.
+
+(* [G] every cell of the vertex array has its call in the loop (so the theorem above applies to every cell) *)
+Theorem C15_trim_mesh_every_cell_is_called : forall (rtol tol tols : R) trims npts su sv k vs ts i j,
+  make_trim_mesh Rops rtol tol tols trims npts su sv k = Ok (vs, ts) ->
+  i < varr_size su k - 1 -> j < varr_size sv k - 1 ->
+  exists tr1 c tr2, trim_trace Rops rtol tol tols trims su sv k = tr1 ++ c :: tr2 /\ call_cell c = (i, j).
+Proof. exact (trim_trace_cell Rops). Qed.
+Print Assumptions C15_trim_mesh_every_cell_is_called.
+
+(* triangle ids.  The claim "triangle ids are consecutive" is FALSE for the trimmed tessellation (model and code): a cell
+   whose first candidate triangle fails the centre test returns the second with its candidate id.  Witness: 2 x 2 samples,
+   one ordinary trim [3/5,4/5] x [1/5,2/5] around the centre of the first fan triangle: the result is the single triangle
+   with id 1 (geomdl returns the same: ids [1]; with 3 x 2 samples ids [1; 1; 2]) *)
+Theorem C15_trim_mesh_tri_ids_consecutive_refuted :
+  exists (rtol tol tols : R) trims npts su sv k vs ts,
+    make_trim_mesh Rops rtol tol tols trims npts su sv k = Ok (vs, ts) /\ map fst ts <> seq 0 (length ts).
+Proof. exact trim_mesh_tri_ids_refuted. Qed.
+Print Assumptions C15_trim_mesh_tri_ids_consecutive_refuted.
+
+(* [G] corrected: ids are 0..F-1 when every call returns consecutively numbered triangles (keeps a prefix of its
+   candidates) ... *)
+Theorem C15_trim_mesh_tri_ids_consecutive_if_prefix_kept : forall (rtol tol tols : R) trims npts su sv k vs ts,
+  make_trim_mesh Rops rtol tol tols trims npts su sv k = Ok (vs, ts) ->
+  Forall (fun c => let l := call_ts (surface_trim_tessellate Rops rtol tol tols trims) (varr_size sv k) c in
+                   map fst l = seq (call_ti c) (length l))
+         (trim_trace Rops rtol tol tols trims su sv k) ->
+  map fst ts = seq 0 (length ts).
+Proof. exact (trim_mesh_tri_ids Rops). Qed.
+Print Assumptions C15_trim_mesh_tri_ids_consecutive_if_prefix_kept.
+
+(* [G] ... in particular when no cell's tols-neighbourhood is touched by the (closed) trims *)
+Theorem C15_trim_mesh_tri_ids_consecutive_untouched : forall (rtol tol tols : R) trims npts su sv k vs ts,
+  (0 <= tols)%R -> trims_closed trims -> make_trim_mesh Rops rtol tol tols trims npts su sv k = Ok (vs, ts) ->
+  (forall c, In c (trim_trace Rops rtol tol tols trims su sv k) ->
+     let i := fst (call_cell c) in let j := snd (call_cell c) in
+     trims_miss_rect trims (gu su k i - tols) (gu su k (i + 1) + tols) (gu sv k j - tols) (gu sv k (j + 1) + tols)) ->
+  map fst ts = seq 0 (length ts).
+Proof. exact trim_mesh_tri_ids_untouched. Qed.
+Print Assumptions C15_trim_mesh_tri_ids_consecutive_untouched.
+
+(* non-vacuity: 3 x 3 samples, spacing 1, a closed ordinary trim far from the parameter square: the mesh exists and starts
+   with the two plain triangles of cell (0,0) on the grid vertices (0,0), (1/2,0), (1/2,1/2), (0,1/2) = points 0, 3, 4, 1 *)
+Example C15_example_trim_mesh :
+  exists vs ts rest n1 n2 n3 n4,
+    make_trim_mesh Rops 1000%R 0%R (1 / 2)%R [far_trim] 9 3 3 1 = Ok (vs, ts) /\ (0 <= 1 / 2)%R /\ trims_closed [far_trim] /\
+    ts = (0, (n1, n2, n3)) :: (1, (n1, n3, n4)) :: rest /\
+    forall d, nth n1 vs d = (Some 0, (0, 0)%R) /\ nth n2 vs d = (Some 3, (1 / 2, 0)%R) /\
+              nth n3 vs d = (Some 4, (1 / 2, 1 / 2)%R) /\ nth n4 vs d = (Some 1, (0, 1 / 2)%R).
+Proof. exact trim_mesh_example. Qed.
